@@ -26,4 +26,16 @@ Apply(g, ovs) == IF ovs = <<>> THEN g
 Expected(g, deps) ==
     IF \E k \in 1..Len(deps) : Fails(g, deps[k]) THEN [fail |-> TRUE, vals |-> <<>>]
     ELSE [fail |-> FALSE, vals |-> [k \in 1..Len(deps) |-> Value(g, deps[k])]]
+(* A failing provider makes the execution a failed one that the worker still has to answer (retry / dead letter): *)
+(* it is never reported as `already answered'.                                                                   *)
+FailureIsUnanswered(fail, reported) == fail => ~reported
+
+(* Declarations (providers given to Depends / override, and actors): a parameter is either a dependency           *)
+(* (positional-or-keyword or keyword-only) or, for a provider, something with a default value; a dependency in a   *)
+(* positional-only, *args or **kwargs parameter is refused whether or not it has a default, and so is a provider    *)
+(* parameter that is neither a dependency nor defaulted.                                                            *)
+ParamSupported(p, isActor) ==
+    IF p.dep THEN p.kind \in {"pk", "kw"}
+    ELSE isActor \/ p.hasdefault
+DeclSupported(params, isActor) == \A k \in 1..Len(params) : ParamSupported(params[k], isActor)
 =============================================================================
